@@ -200,7 +200,7 @@ IdentityOrder(ini) == [k \in 1..Len(ini.secs) |-> k]
 
 \* the text of one stored atom as convertToString renders it: integers in the option's base, the rest as stored
 RenderAtom(od, a) == IF (IsSignedInt(od.vtype) \/ IsUnsignedInt(od.vtype)) /\ od.base # 10 THEN FormatInBase(a, od.base)
-                     ELSE IF od.vtype = "um" THEN (IF HasPrefix(a, UMPrefix) THEN Drop(a, Len(UMPrefix)) ELSE a)
+                     ELSE IF od.vtype \in {"um", "us"} THEN (IF HasPrefix(a, UMPrefix) THEN Drop(a, Len(UMPrefix)) ELSE a)
                      ELSE a
 
 IsStringish(od) == od.vtype \in {"string"}
